@@ -9,3 +9,7 @@
      :pattern ((spec.hbits a o n i)))))
 (assert (forall ((a (Array Int Int)) (o Int) (n Int) (i Int))
   (! (>= (spec.hbits a o n i) 0) :pattern ((spec.hbits a o n i)))))
+; every code is at most 30 bits long (consequence of the definition and of the table, whose largest entry is 30;
+; stated, not machine-checked, like the non-negativity above)
+(assert (forall ((a (Array Int Int)) (o Int) (n Int) (i Int))
+  (! (=> (>= i 0) (<= (spec.hbits a o n i) (* 30 i))) :pattern ((spec.hbits a o n i)))))
